@@ -26,6 +26,8 @@ before anything is executed - never after looking at an outcome).  ``excluded(as
   E10 nested order       an ordering on a nested statement without limit has no meaning; SQLite rejects it in
                          compound operands
   E11 colliding literal  literals -1 / -2 (CPython hash collision, property C08) unless asked for
+  E14 constant order key an ``orderby`` key without any element or aggregate (an integer there is a column position in SQL,
+                         a bound parameter is refused by DuckDB; it orders nothing anyway)
   E12 ambiguous handles  two different references with the same name (or a reference named like a table) among the
                          origins of one query: SQL has no way to tell them apart, the DSL grammar is silent
 Per engine (``engine_excluded``): E13 a set operation with a set operation as an operand is not run on SQLite (its
@@ -266,6 +268,8 @@ def excluded(ast, allow_colliding=False):
                         if not (top and direct):
                             return 'E3 avg'
             for o in src['order']:
+                if not any(n['f'] in ('col', 'agg') for n in _nodes(o['x'])):
+                    return 'E14 constant order key'
                 if nullable(o['x'], src['l']):
                     return 'E5 nullable order key'
             if not top:
